@@ -53,8 +53,10 @@ def gen_case(seed, i, tier):
     if i % 16 == 9:
         # scale: a mesh beyond 512 cells (a handful of steps per leg: every stored state is 1-4 MB)
         o["GridSize"] = r.choice([513, 640, 1030])
-        o["StepsPerTs"] = 16
-        T1 = T2 = 0.25
+        # (1024 steps per period, four steps per leg: with a coarse step the wake-driven dynamics amplify any difference tenfold per
+        #  step - at 16 steps per period the one-ulp rescaling of a RenormalizeCharge=0 start-up grew to 5e-5 within two steps, seed 3)
+        o["StepsPerTs"] = 1024
+        T1 = T2 = 1.0 / 256
         o1 = r.choice([1, 2]) if ren <= 0 else o1
         o["_scale"] = "grid"
     if i % 16 == 13:
